@@ -71,6 +71,21 @@ def gen_cases(rng, tier):
         z[rng.randrange(len(z))] = 0.0
         if name not in ("buck",) or z[1] != 0.0:
           vecs[0] = z
+      if k == 1 and name not in ("zero", "polynomial"):
+        # one-parameter-at-a-time: every vector differs from the first in exactly one position, so a result
+        # remembered for "the same parameters" under an incomplete key would be returned for the wrong vector
+        base = list(vecs[0])
+        vecs = [base]
+        for pos in range(len(base)):
+          v2 = list(base)
+          if name == "buck4":
+            v2[pos] = round(base[pos] * (1.07 if pos < 3 else 1.0) + (0.04 if pos >= 3 else 0.0), 4)
+          elif name == "zbl":
+            v2[pos] = base[pos] + 1
+          else:
+            v2[pos] = round(base[pos] * 1.25 + (0.5 if base[pos] == 0 else 0.0), 6)
+          vecs.append(v2)
+        vecs = (vecs * 2)[:max(NVEC, len(vecs))]
       rs = sorted(set([round(rng.uniform(0.05, 30.0), rng.choice([2, 3, 5])) for _ in range(10)] + [30.0, rng.choice([0.01, 0.5, 1.0])]))
       if name == "zbl":
         rs = [r for r in rs if r <= 30.0]
